@@ -26,8 +26,8 @@ CLAIMED = {
          "theorems quantify over every buffer, length and maximum; the model of header.rs is tied to the code on the exhaustive (n, r, max) grid", "DESIGN.md 7 C10"),
  "C11": ("Coq: generic index depends only on the set of items (order independence via C13); source scan for nondeterminism; real generator in fresh processes / shared Generator; layout and permutation variants compared item by item",
          "order independence of the one hash-based index is a theorem; process-level determinism is observed", "DESIGN.md 7 C11"),
- "C12": ("Coq: constructors keep type/array kind/bound/optional flag and accumulate fall-through labels; K1 (model front end = real pest + Ast::new); independent reference AST from a random declaration model under random layout",
-         "front-end model regenerated from xdr.pest and tied by K1; text-level round trip PARTIAL", "DESIGN.md 7 C12"),
+ "C12": ("Coq: C12_walk / C12_ast / C12_source_tie -- for EVERY declaration list (any number of items, fields, fall-through groups) the walker yields exactly the declared items and every type/constant/enum member is retrievable by name, generics = opaque reachability; K1 (model front end = real pest + Ast::new), K5 (Source.tree_of = erased parse tree and Ast of item_of = real Ast per generated list); independent reference AST from a random declaration model under random layout",
+         "tree-level theorem for all declaration lists; the text-to-tree step (PEG on every layout) is checked per spec by K1/K5, not proved: PARTIAL there", "DESIGN.md 7 C12"),
  "C13": ("Coq: C13_reach -- for ANY item list, name in generic index iff opaque reachable (soundness by invariant, completeness by closedness of the fixpoint), C13_fuel, C13_emitted_*; exhaustive graphs k<=2, sampled k=3, chains of depth >= 12",
          "full theorem for all dependency graphs, orders, cycles; model tied by K1 on Ast::generics()", "DESIGN.md 7 C13"),
  "C14": ("Coq: constructors total on grammar shapes, panic exactly in the F11 classes; rejected text yields Err; K1/K2 outcome classes and panic sites on hostile and mutated texts",
